@@ -160,3 +160,22 @@ Proof.
   split; [vm_compute; reflexivity|]. split; [vm_compute; reflexivity|]. split; [vm_compute; reflexivity|].
   split; [vm_compute; reflexivity|]. split; [vm_compute; reflexivity|]. eexists. vm_compute. reflexivity.
 Qed.
+
+(* ... and deleting "a" (positions 1..2) from the first paragraph of the example document *)
+Example C02_flat_delete_example :
+  let s := Properties.C01.ex_schema in let doc := Properties.C01.ex_doc in
+  exists rf rt parent i j nb na,
+    resolve s doc 1 = Ok rf /\ resolve s doc 2 = Ok rt /\ rp_parent rf = Ok parent /\
+    rp_depth rf = rp_depth rt /\ (forall d, d < rp_depth rf -> rp_index rf d = rp_index rt d) /\
+    rp_index rf (rp_depth rf) = Ok i /\ rp_index rt (rp_depth rf) = Ok j /\
+    rp_node_before s rf = Ok nb /\ rp_node_after s rt = Ok na /\
+    valid_content s (node_ty s parent) (remaining parent rf rt i j nb na) = true /\
+    exists d', node_replace s doc 1 2 (SL [] 0 0) = Ok d'.
+Proof.
+  cbv zeta. do 7 eexists.
+  split; [vm_compute; reflexivity|]. split; [vm_compute; reflexivity|]. split; [vm_compute; reflexivity|].
+  split; [vm_compute; reflexivity|]. split.
+  - intros d Hd. vm_compute in Hd. destruct d as [|d]; [vm_compute; reflexivity|]. exfalso. vm_compute in Hd. lia.
+  - split; [vm_compute; reflexivity|]. split; [vm_compute; reflexivity|]. split; [vm_compute; reflexivity|].
+    split; [vm_compute; reflexivity|]. split; [vm_compute; reflexivity|]. eexists. vm_compute. reflexivity.
+Qed.
